@@ -185,6 +185,35 @@ func (p *Program) carriers(prop string) (proved []string, boundedOnly []string) 
 			}
 		}
 	}
+	for _, sp := range p.Sweep {
+		if sp != prop {
+			continue
+		}
+		for k, f := range p.Funcs {
+			if seen[k] || f.Blocks == nil || f.Parent() != nil {
+				continue
+			}
+			if _, isSpec := p.SpecFuncs[k]; isSpec {
+				continue
+			}
+			file := p.Fset.Position(f.Pos()).Filename
+			if strings.HasPrefix(filepath.Base(file), "verif_") || strings.HasSuffix(file, "_test.go") {
+				continue
+			}
+			if _, skip := p.NoSweep[k]; skip {
+				continue
+			}
+			if c := p.Contracts[k]; c != nil && (c.Trusted || c.Bounded) {
+				if c.Bounded {
+					boundedOnly = append(boundedOnly, k)
+				}
+				seen[k] = true
+				continue
+			}
+			seen[k] = true
+			proved = append(proved, k)
+		}
+	}
 	sort.Strings(proved)
 	sort.Strings(boundedOnly)
 	return
@@ -192,7 +221,7 @@ func (p *Program) carriers(prop string) (proved []string, boundedOnly []string) 
 
 func dirCarries(dir, prop string) bool {
 	files, _ := filepath.Glob(filepath.Join(dir, "verif_*.go"))
-	re := regexp.MustCompile(`(?m)^\s*//\s?@\s*carries\b.*\b` + prop + `\b`)
+	re := regexp.MustCompile(`(?m)^\s*//\s?@\s*(carries|sweep)\b.*\b` + prop + `\b`)
 	for _, f := range files {
 		data, err := os.ReadFile(f)
 		if err == nil && re.Match(data) {
